@@ -213,7 +213,8 @@ def s7_check(ctx, prop_id, cases, extra_filter=None):
         who_s, i_s = classify_diff(c.t, c.s)
         who_x, i_x = classify_diff(c.t, c.x)
         if who_s is not None:
-            if who_s in ('C01', 'C02', 'C05') and 'failing' in c.features() and prop_id == 'C07':
+            if who_s in ('C01', 'C02', 'C05') and 'fallible' in c.features() and prop_id == 'C07':
+                # (also when nothing fails: a nil TerminalError must let the chain continue)
                 who_s = 'C07'
             if who_s == 'C01' and prop_id == 'C05' and static_dup(c):
                 # a type supplied more than once before invoke (values, static injectors, init arguments): which of them a
